@@ -739,9 +739,15 @@ class SqlalchemyRender:
             render_func = render_dml_query
 
         try:
-            stmt, params = self.get_query(ast_query, with_params=with_params)
+            try:
+                stmt, params = self.get_query(ast_query, with_params=with_params)
 
-            sql = render_func(stmt, self.dialect)
+                sql = render_func(stmt, self.dialect)
+            except (SQLAlchemyError, NotImplementedError):
+                raise
+            except Exception as e:
+                # a shape of the tree that can't be translated (unknown type name, tuple as operand, ...)
+                raise NotImplementedError(f'Unsupported query: {e.__class__.__name__}: {e}') from e
 
             return sql, params
 
